@@ -11,9 +11,9 @@ import (
 
 func init() {
 	register(&propDef{
-		id: "C23",
+		id:      "C23",
 		explain: "Structural necessary conditions of 'the FS handler never serves a file outside its root': (R1) in the FS request handler every use of the request path to look up, build or open a file happens on paths where the NUL-byte test has passed; (R2) and, when the path came from a PathRewrite function (the rewriter field is not nil), where the '..'-segment test has passed as well - rewritten paths bypass URI normalisation; (R3) every file-system open/create/remove site of the package is reachable only from the request handler (or from the documented unguarded ServeFile family) - there is no other way in; the handler's configuration fields are assigned only during initialisation; (R4) the path normaliser behind RequestCtx.Path() applies every dot-related test ('.' presence, '/./', '/../') to the percent-decoded buffer, never to the raw encoded input, so encoded dot segments are removed like literal ones. Not decided: that the normaliser equals RFC 3986 remove_dot_segments (C26), symlinks, case-insensitive file systems.",
-		run: runC23,
+		run:     runC23,
 	})
 }
 
